@@ -487,7 +487,16 @@ def run_check(pid, tier, seed, workers=None, cases=None, quiet=False):
                                          "case": {"mode": "hash_seed", "target": k, "seed": seed, "tier_cfg": cfg, "pythonhashseeds": [0, 1]},
                                          "detail": "history #%d gives another outcome digest under PYTHONHASHSEED=1 than under PYTHONHASHSEED=0 (it touches no negated-class regex and no set value)" % k})
                     else:
-                        harness_errors.append({"type": "harness_error", "error": "C07 hash-echo mismatch for case %d did not reproduce alone" % k})
+                        # not the hash seed: the two interpreters also differ in what ran *before* history k
+                        # (sweep worker: k-W, k-2W, ...; hash-echo worker: its own chunk) -- try that
+                        pv = None
+                        if not any(x.get("kind") == "process_history" for x in new_viol):
+                            chunk = next((c for c in chunks if k in c), [])
+                            pv = process_history_violation(pid, seed, cfg, k, W, wall, pred_b=[i for i in chunk if i < k])
+                        if pv is not None:
+                            new_viol.append(pv)
+                        elif not any(x.get("kind") == "process_history" for x in new_viol):
+                            harness_errors.append({"type": "harness_error", "error": "C07 hash-echo mismatch for case %d did not reproduce alone" % k})
         det["hash_echo_compared"] = hs_compared
     by_sig = {}
     for v in violations:
